@@ -14,7 +14,7 @@ Open Scope Z_scope.
 Theorem C03_decode_rfc_partial : forall w prev, wf_wire w ->
   exists offs,
   packet_unmarshal_into prev (encode w)
-  = Ok (mkPktResult (meaning (extension_profile (hdr prev)) w) (zlen (enc_header w)) offs).
+  = Ok (mkPktResult (meaning 0 w) (zlen (enc_header w)) offs).
 Proof. exact packet_decode_wire. Qed.
 Print Assumptions C03_decode_rfc_partial.
 
@@ -30,19 +30,19 @@ Qed.
 Print Assumptions C03_canonical.
 
 (* "any accepted input re-marshals to bytes that decode to an equal packet": for EVERY byte string
-   Packet.Unmarshal accepts into a fresh Packet (layouts the encoder never produces included:
+   Packet.Unmarshal accepts into any Packet, fresh or used (layouts the encoder never produces included:
    padding bytes between elements, id 0 with a length nibble, the reserved id 15 stop, legacy
    profiles, RTP padding with any fill), the decoded packet is well-formed in the sense of C01,
    Marshal succeeds, and Unmarshal of those bytes yields exactly the same packet.  The one
    exception is exact: the P bit with a zero padding count is accepted by Unmarshal and refused
    by Marshal with errInvalidRTPPadding. *)
-Theorem C03_reencode : forall buf r, bytes_ok buf ->
-  packet_unmarshal_into empty_packet buf = Ok r ->
+Theorem C03_reencode : forall prev buf r, bytes_ok buf ->
+  packet_unmarshal_into prev buf = Ok r ->
   let q := pr_packet r in
   (padding (hdr q) = true /\ padding_size q = 0 /\ packet_marshal q = Err EInvalidPadding) \/
   (wf_packet q /\ exists bs offs, packet_marshal q = Ok bs /\ zlen bs = packet_marshal_size q /\
-     packet_unmarshal_into empty_packet bs = Ok (mkPktResult q (header_marshal_size (hdr q)) offs)).
-Proof. exact packet_reencode. Qed.
+     packet_unmarshal_into prev bs = Ok (mkPktResult q (header_marshal_size (hdr q)) offs)).
+Proof. exact packet_reencode_any. Qed.
 Print Assumptions C03_reencode.
 
 (* non-vacuity: a non-canonical accepted input (padding byte first, id 0 with two value bytes,
